@@ -11,6 +11,9 @@
 //	park-warn <n>                 -> ok      (the next n requests that make the breaker log "is in error state" are parked inside that Warn call)
 //	start <id>                    -> parked  (when it blocks in the Warn; nothing else is printed: on the unchanged code it holds the breaker's lock)
 //	unpark <id>                   -> pass <state> | fallback <state>   (the request is decided now)
+//	start <id2> while one is parked -> unparked <pass|fallback> then <pass|fallback> <state>   when <id2> cannot get past the parked request
+//	                                 within 25 ms (it waits for the lock): the parked request is released, both are decided in that order;
+//	                                 if <id2> is answered at once, just that answer is printed (no state: String() would block) and the other stays parked
 //	finish <id> <code> …          -> unparked <pass|fallback> <state> done <code> <state>   when a request is parked *and holds the lock*
 //	                                 (probed with String(), 25 ms): the parked request is decided first, then the completion proceeds;
 //	                                 if the parked request does not hold the lock the completion simply proceeds and it stays parked
@@ -207,12 +210,43 @@ func (s *h) op(f []string, line *string) string {
 		atomic.StoreInt32(&s.armed, int32(hx.Atoi(f[1])))
 		return "ok"
 	case f[0] == "start" && len(f) == 2:
-		if _, ok := s.flights[f[1]]; ok || s.parkedID != "" {
+		if _, ok := s.flights[f[1]]; ok || (s.parkedID != "" && atomic.LoadInt32(&s.armed) > 0) {
 			return "bad-op"
 		}
 		fl := newFlight()
 		s.flights[f[1]] = fl
 		s.parking = fl
+		if s.parkedID != "" {
+			// a second arrival while the first is parked in the breaker's Warn
+			s.parking = nil
+			req := httptest.NewRequest(http.MethodGet, "http://backend/", nil)
+			req.Header.Set("X-Id", f[1])
+			go func() {
+				defer close(fl.done)
+				s.cb.ServeHTTP(fl.rec, req)
+			}()
+			select {
+			case <-fl.entered:
+				return "pass"
+			case <-fl.done:
+				delete(s.flights, f[1])
+				if s.isFallback(fl.rec) {
+					return "fallback"
+				}
+				return fmt.Sprintf("lost code=%d", fl.rec.Code)
+			case <-time.After(parkProbe):
+			}
+			pid := s.parkedID
+			pf := s.flights[pid]
+			pf.start = clock.Now().UTC()
+			s.parkedID = ""
+			close(pf.unpark)
+			ra := s.decided(pid, pf)
+			rb := s.decided(f[1], fl)
+			q := s.quiesce()
+			s.prevState = s.state()
+			return "unparked " + ra + " then " + rb + " " + s.prevState + q
+		}
 		req := httptest.NewRequest(http.MethodGet, "http://backend/", nil)
 		req.Header.Set("X-Id", f[1])
 		go func() {
